@@ -54,7 +54,10 @@ func ParseAndValidateServerName(serverName ServerName) (host string, port int, v
 		return
 	}
 
-	// must be a valid DNS Name
+	// must be a valid DNS Name of at most 255 characters
+	if len(host) > 255 {
+		return
+	}
 	for _, r := range host {
 		if !isDNSNameChar(r) {
 			return
